@@ -17,6 +17,9 @@ Require Import Ctpg.Valid.SpecMatch.
 Require Import Ctpg.Proofs.DriverBasics.
 Require Import Ctpg.Proofs.SafeBasics.
 Require Import Ctpg.Proofs.SafeCap.
+Require Import Ctpg.Valid.LRProductive.
+Require Import Ctpg.Proofs.CapFormula.
+Require Import Ctpg.Proofs.CapFormulaValid.
 From Coq Require Import Permutation.
 
 (* a parse whose stacks never exceed n gives the same result, final state and output with any fixed capacity above n as with unbounded stacks (cstring_buffer vs the other buffers) *)
@@ -36,6 +39,12 @@ Theorem C07_too_small_is_throw :
   forall (V C : Type) (g : grammar) (tbl : LRGen.table) (opts : options) (buf : list nat) (lexer : bool -> spoint -> list nat -> list lex_event * option (nat * nat)) (term_f : nat -> nat -> nat -> spoint -> V) (err_f : spoint -> V) (rule_f : nat -> C -> list V -> C * V) (n fuel : nat) (c : C), 0 < n -> ~ never_above V C g tbl opts buf lexer term_f err_f rule_f n fuel c -> fst (fst (run V C g tbl opts buf (Some n) lexer term_f err_f rule_f fuel c)) = Throw.
 Proof. exact capacity_too_small. Qed.
 Print Assumptions C07_too_small_is_throw.
+
+(* hence for tables that pass term_checks, of grammars without empty rules and without error rules, parsing through cstring_buffer (fixed stacks) gives exactly the run of the other buffer kinds, for every input *)
+Theorem C07_cstring_buffer_agrees_without_empty_rules_and_recovery :
+  forall (V C : Type) (g : grammar) (sts : list items) (tbl : LRGen.table) (opts : options) (buf : list nat) (lexer : bool -> spoint -> list nat -> list lex_event * option (nat * nat)) (term_f : nat -> nat -> nat -> spoint -> V) (err_f : spoint -> V) (rule_f : nat -> C -> list V -> C * V), term_checks g sts tbl = true -> no_error_symbol g tbl = true -> empty_rules g = 0 -> lexer_in_range lexer -> forall (fuel : nat) (c : C), run V C g tbl opts buf (Some (cstring_cap g (length buf))) lexer term_f err_f rule_f fuel c = run V C g tbl opts buf None lexer term_f err_f rule_f fuel c /\ fst (fst (run V C g tbl opts buf (Some (cstring_cap g (length buf))) lexer term_f err_f rule_f fuel c)) <> Throw.
+Proof. exact cstring_capacity_suffices_checked. Qed.
+Print Assumptions C07_cstring_buffer_agrees_without_empty_rules_and_recovery.
 
 (* runs with extensionally equal lexers and functors are equal: nothing else is observed *)
 Theorem C07_run_depends_only_on_what_it_is_given :
